@@ -271,12 +271,13 @@ theorem execArrive_eq (h : Hints) (s : State) (now c digest dkey : Nat) (dnc : B
 def ExecPost (s s' : State) : Prop := Inv s' ∧ Mono s s' ∧ EvSel s s'
 
 theorem execBody_hit_spec {s : State} {c tid : Nat} {t : Task} {inv : List Nat} {prio : Int} (hI : Inv s)
-    (ht : alookup tid s.tasks = some t) (_hr : t.response = none) :
+    (ht : alookup tid s.tasks = some t) (hr : t.response = none) :
     wp (match t.ops.find? (fun o => match (emit s .selAbandoned).op? o with | some op => op.inv = inv | none => false) with
         | some o => streamAttach (emit s .selAbandoned) c o
         | none =>
           streamAttach (addOpSt (emit s .selAbandoned) tid t inv prio) c s.nextOp)
-      (fun s' => ExecPost s s' ∧ s'.nextTask = s.nextTask) := by
+      (fun s' => ExecPost s s' ∧ s'.nextTask = s.nextTask ∧
+        ∃ st t', st ∈ s'.streams ∧ st.client = c ∧ alookup tid s'.tasks = some t' ∧ st.op ∈ t'.ops) := by
   have hI1 : Inv (emit s .selAbandoned) :=
     ⟨hI.core, hI.oinv, hI.sinv, hI.linv.emit _ (fun _ => ⟨rfl, rfl⟩)⟩
   have hev1 : (emit s .selAbandoned).events = .selAbandoned :: s.events := rfl
@@ -286,23 +287,36 @@ theorem execBody_hit_spec {s : State} {c tid : Nat} {t : Task} {inv : List Nat} 
     cases hop : alookup o (emit s .selAbandoned).ops with
     | none => simp only [op?_def, hop] at hp; cases hp
     | some op =>
+      have hmem : o ∈ t.ops := List.mem_of_find?_eq_some hf
+      have hot : op.task = tid := by
+        rcases (hI.oinv.o2 tid t o ht hmem).2 with b | ⟨op', e1, e2⟩
+        · exact absurd b id
+        · have : alookup o s.ops = some op := hop
+          rw [this] at e1; cases e1; exact e2
       refine wp_mono (streamAttach_spec hI1 hop) ?_
-      intro s' ⟨hI', hsf, hev, _⟩
+      intro s' ⟨hI', hsf, hev, hlive⟩
       have hfr := hsf.fr hev
+      obtain ⟨st, hst1, hst2, hst3⟩ := hlive t (by rw [hot]; exact ht) hr
       obtain ⟨os, sts, cl, evs, he⟩ := hsf
-      refine ⟨⟨hI', ?_, EvSel.mk' (s1 := s) (Ext.refl _ _) hev1 rfl trivial hev⟩, by rw [he]; rfl⟩
+      refine ⟨⟨hI', ?_, EvSel.mk' (s1 := s) (Ext.refl _ _) hev1 rfl trivial hev⟩, by rw [he]; rfl,
+        st, t, hst1, hst2, by rw [he]; exact ht, by rw [hst3]; exact hmem⟩
       exact Mono.trans (show Mono s (emit s .selAbandoned) from
         ⟨rfl, Nat.le_refl _, Nat.le_refl _, Nat.le_refl _, fun k hk => hk, Ext.refl _ _⟩) hfr.toMono
   · have hI2 := addOpSt_inv (inv := inv) (prio := prio) hI1 ht
     have hop : alookup s.nextOp (addOpSt (emit s .selAbandoned) tid t inv prio).ops =
         some { name := s.nextOp, task := tid, inv := inv, prio := prio, waiters := 0, mayExistWithoutWaiters := false } := by
       simp only [addOpSt, emit]; rw [alookup_aset, if_pos rfl]
+    have hid : t.id = tid := (hI.core.tid tid t ht).1
+    have ht2 : alookup tid (addOpSt (emit s .selAbandoned) tid t inv prio).tasks =
+        some { t with ops := t.ops ++ [s.nextOp] } := by
+      simp only [addOpSt, emit]; rw [alookup_aset, if_pos hid]
     refine wp_mono (streamAttach_spec hI2 hop) ?_
-    intro s' ⟨hI', hsf, hev, _⟩
+    intro s' ⟨hI', hsf, hev, hlive⟩
     have hfr := hsf.fr hev
+    obtain ⟨st, hst1, hst2, hst3⟩ := hlive _ ht2 hr
     obtain ⟨os, sts, cl, evs, he⟩ := hsf
     refine ⟨⟨hI', ?_, EvSel.mk' (s1 := s) (s2 := addOpSt (emit s .selAbandoned) tid t inv prio) (Ext.refl _ _) hev1 rfl trivial hev⟩,
-      by rw [he]; rfl⟩
+      by rw [he]; rfl, st, _, hst1, hst2, by rw [he]; exact ht2, by rw [hst3]; simp⟩
     refine Mono.trans (show Mono s (addOpSt (emit s .selAbandoned) tid t inv prio) from
       ⟨rfl, Nat.le_refl _, Nat.le_refl _, Nat.le_succ _, ?_, Ext.refl _ _⟩) hfr.toMono
     intro k hk
@@ -313,7 +327,6 @@ theorem execBody_hit_spec {s : State} {c tid : Nat} {t : Task} {inv : List Nat} 
     split
     · rename_i hkk
       intro e; cases e
-      have hid : t.id = tid := (hI.core.tid tid t ht).1
       rw [← hkk, hid] at hk
       exact hk.2 t ht
     · exact hk.2 t'
@@ -322,7 +335,10 @@ theorem execBody_hit_spec {s : State} {c tid : Nat} {t : Task} {inv : List Nat} 
 theorem execBody_new_spec {h : Hints} {s : State} {c digest dkey : Nat} {dnc : Bool} {q : ScqId}
     {inv : List Nat} {prio : Int} (hI : Inv s) (hnone : alookup dkey s.dedup = none) :
     wp (schedule h (newTaskSt s digest dkey dnc q inv prio) s.nextTask >>= fun s1 => streamAttach s1 c s.nextOp)
-      (fun s' => ExecPost s s') := by
+      (fun s' => ExecPost s s' ∧ s'.nextTask = s.nextTask + 1 ∧
+        s'.dedup = (if dnc then s.dedup else aset dkey s.nextTask s.dedup) ∧
+        ∃ t', alookup s.nextTask s'.tasks = some t' ∧ t'.dkey = dkey ∧ t'.doNotCache = dnc ∧
+          t'.background = false ∧ t'.digest = digest) := by
   have hI3 := newTaskSt_inv (digest := digest) (dnc := dnc) (q := q) (inv := inv) (prio := prio) hI hnone
   have ht3 : alookup s.nextTask (newTaskSt s digest dkey dnc q inv prio).tasks =
       some (newTask s digest dkey dnc q) := by
@@ -338,7 +354,11 @@ theorem execBody_new_spec {h : Hints} {s : State} {c digest dkey : Nat} {dnc : B
   refine wp_mono (streamAttach_spec hI1' hop) ?_
   intro s' ⟨hI', hsf, hev, _⟩
   have hfr := hsf.fr hev
-  refine ⟨hI', ((newTaskSt_mono s digest dkey dnc q inv prio).trans hfr1.toMono).trans hfr.toMono, ?_⟩
+  obtain ⟨t1, ht1, he1, _⟩ := hp.tt
+  obtain ⟨os, sts, cl, evs, he'⟩ := hsf
+  refine ⟨⟨hI', ((newTaskSt_mono s digest dkey dnc q inv prio).trans hfr1.toMono).trans hfr.toMono, ?_⟩,
+    by rw [he', he]; rfl, by rw [he', he]; rfl, t1, by rw [he']; exact ht1, by rw [he1]; rfl, by rw [he1]; rfl,
+    by rw [he1]; rfl, by rw [he1]; rfl⟩
   exact EvSel.mk' (s1 := s) (s2 := newTaskSt s digest dkey dnc q inv prio) (Ext.refl _ _) rfl rfl trivial
     (hfr1.ev.trans hev)
 
@@ -354,7 +374,8 @@ theorem execBody_spec {h : Hints} {s : State} {c digest dkey : Nat} {dnc : Bool}
     simp only [task?_def, ht]
     have hrs : ¬ t.response.isSome = true := by rw [hr]; simp
     have := execBody_hit_spec (c := c) (inv := inv) (prio := prio) hI ht hr
-    refine wp_mono (Q := fun s' => ExecPost s s' ∧ s'.nextTask = s.nextTask) ?_ (fun s' h => h.1)
+    refine wp_mono (Q := fun s' => ExecPost s s' ∧ s'.nextTask = s.nextTask ∧
+        ∃ st t', st ∈ s'.streams ∧ st.client = c ∧ alookup tid s'.tasks = some t' ∧ st.op ∈ t'.ops) ?_ (fun s' h => h.1)
     split
     · rename_i o hf
       rw [hf] at this; exact this
@@ -377,8 +398,8 @@ theorem execBody_spec {h : Hints} {s : State} {c digest dkey : Nat} {dnc : Bool}
         have := execBody_new_spec (h := h) (c := c) (digest := digest) (dnc := dnc) (q := ⟨pq.id, sc⟩)
           (inv := inv) (prio := prio) hI hd
         cases dnc with
-        | true => exact this
-        | false => exact this
+        | true => exact wp_mono this (fun s' h => h.1)
+        | false => exact wp_mono this (fun s' h => h.1)
       · okerr
 
 theorem execArrive_spec {h : Hints} {s : State} {now c digest dkey : Nat} {dnc : Bool} {comps : List Nat}
